@@ -299,12 +299,37 @@ func c01Stateful(r *Run, c c01Config) {
 	if c.T != 1 {
 		do(Act(fmt.Sprintf("updateSignatureThreshold(%d) by A1", c.T), &cctptypes.MsgUpdateSignatureThreshold{From: AttMgr.Str, Amount: c.T}))
 	}
+	// a further key is enabled (under the configuration's spelling) and disabled again: it is not
+	// "currently enabled", whatever the registry does with spellings
+	extra := -1
+	for i := 0; i < c.NKeys; i++ {
+		in := false
+		for _, e := range c.E {
+			if e == i {
+				in = true
+			}
+		}
+		if !in {
+			extra = i
+			break
+		}
+	}
+	modelView := ViewOf(w)
+	if extra >= 0 && reachable {
+		sp := c.Spell
+		if sp == 3 {
+			sp = 1
+		}
+		name := Keys[extra].Spell(sp)
+		do(Act("enableAttester("+attName(name)+") by A1", &cctptypes.MsgEnableAttester{From: AttMgr.Str, Attester: name}))
+		do(Act("disableAttester("+attName(name)+") by A1", &cctptypes.MsgDisableAttester{From: AttMgr.Str, Attester: name}))
+	}
 	if !reachable {
 		return
 	}
 	base := w.Dump()
 	r.States++
-	view := ViewOf(w)
+	view := modelView // the enabled set according to the history of successful enable/disable transactions
 	inbound := InboundPlain(DomEth, 77, []byte("stateful leg"), nil)
 	original := RefMsg(0, Noble, DomEth, 5, pad32(UserA.Addr), distinct32(0x21), Zero32, []byte("to be replaced"))
 	other := []byte("another message")
